@@ -107,6 +107,11 @@ Inductive op :=
 | A_change (r : Z)                              (* audio thread: Renderer::on_change_sample_rate(r) *)
 | A_callback (frames : Z).                      (* audio thread: on_start_processing; process(frames) *)
 
+(** [delay_time_frames] (effect/delay.rs, after the repair of F35): whole frames in the delay time, integer
+    arithmetic: [usize::try_from(delay_time.as_nanos() * sample_rate as u128 / 1_000_000_000).unwrap_or(MAX).max(1)] *)
+Definition delay_frames_int (t_ns sr : Z) : Z :=
+  Z.max 1 (Z.min (2 ^ 64 - 1) (t_ns * sr / 1000000000)).
+
 Section Protocol.
   (** [Delay]: (delay_time in ns, sample rate) -> (delay_time.as_secs_f64() * sample_rate as f64) as usize *)
   Variable frames_of : Z -> Z -> Z.
@@ -228,7 +233,9 @@ Section Scaling.
     | d :: ds' => let! st' := acc_step fuel st d in acc_run fuel st' ds'
     end.
 
-  (** Delay::init / on_change_sample_rate: [((delay_time.as_secs_f64() * sample_rate as f64) as usize).max(1)] *)
+  (** Delay::init / on_change_sample_rate BEFORE the repair of F35:
+      [((delay_time.as_secs_f64() * sample_rate as f64) as usize).max(1)] -- exact over Q, one frame short in
+      binary64 for some delay times that are a whole number of frames.  Kept: over Q it is the specification. *)
   Definition delay_trunc (t_ns sr : Z) : Z := ntoU64 (nmul (ns_to_secs t_ns) (nofZ sr)).
   Definition delay_frames (t_ns sr : Z) : Z := Z.max 1 (delay_trunc t_ns sr).
 
